@@ -89,7 +89,7 @@ def check(rspec, stats=None):
 
 def strategy():
     return run_spec(families=ALL_FAMILIES, n_max=10, jac_modes=("callable", "callable", "callable", None, "2-point", "3-point"),
-                    maxiter=(1, 40), maxfun=(1, 120), small_ls=True, units=True, ftols=(0.0, 1e-12, 1e-5), gtols=(1e-8, 1e-6, 1e-5),
+                    maxiter=(1, 40), maxfun=(1, 120), small_ls=True, units=True, extras=True, ftols=(0.0, 1e-12, 1e-5), gtols=(1e-8, 1e-6, 1e-5),
                     allow_degenerate=False, with_scaler=True)
 
 
